@@ -104,27 +104,40 @@ def key_of(parts):
             return "c02:pdu:%s:outcome-%s" % (op, out)
         return "c02:pdu:%s:%s" % (op, RFC_NAME.get(op, {}).get(part, part))
     if parts[:2] == ["c03", "ret"]:
+        parts = parts[:2] + ["bind" if parts[2] == "saslext" else parts[2]] + parts[3:]
         if parts[3] == "no-result":
             return "c03:%s:no-result-%s" % (parts[2], parts[4] if len(parts) > 4 else "")
         return "c03:%s:%s" % (parts[2], parts[3])
     return ":".join(parts)
 
 
+ALL_REQUEST_OPS = ALL_RESULT_OPS | {"saslext", "abandon", "unbind"}
+
+
 def collapse_ops(problems):
-    """c03:<op>:<what> reported for every result-carrying operation is one defect of the common decoder."""
-    by_what = {}
+    """c03:<op>:<what> reported for every result-carrying operation is one defect of the common result decoder;
+    c02:pdu:<op>:<what> reported for every operation is one defect of the common envelope/control encoder."""
+    def split(key):
+        p = key.split(":")
+        if len(p) >= 3 and p[0] == "c03" and p[1] in ALL_RESULT_OPS:
+            return "c03", p[1], ":".join(p[2:]), ALL_RESULT_OPS
+        if len(p) >= 4 and p[:2] == ["c02", "pdu"] and p[2] in ALL_REQUEST_OPS:
+            return "c02:pdu", p[2], ":".join(p[3:]), ALL_REQUEST_OPS
+        return None
+    seen = {}
     for key, case, source in problems:
-        p = key.split(":", 2)
-        if len(p) == 3 and p[0] == "c03" and p[1] in ALL_RESULT_OPS:
-            by_what.setdefault((p[2], source), set()).add(p[1])
+        sp = split(key)
+        if sp:
+            seen.setdefault((sp[0], sp[2], source), set()).add(sp[1])
     out, done = [], set()
     for key, case, source in problems:
-        p = key.split(":", 2)
-        if len(p) == 3 and p[0] == "c03" and by_what.get((p[2], source)) == ALL_RESULT_OPS:
-            if (p[2], source) in done:
+        sp = split(key)
+        if sp and seen[(sp[0], sp[2], source)] >= sp[3]:
+            g = (sp[0], sp[2], source)
+            if g in done:
                 continue
-            done.add((p[2], source))
-            out.append(("c03:every-operation:" + p[2], dict(case, also="same class for all eight result-carrying operations"), source))
+            done.add(g)
+            out.append(("%s:every-operation:%s" % (sp[0], sp[2]), dict(case, also="same class for every operation"), source))
         else:
             out.append((key, case, source))
     return out
@@ -204,8 +217,8 @@ def selftest(chk, owner, trace_path, mutate, name, want_prefix):
                 f.write(json.dumps(x) + "\n")
         out0 = os.path.join(chk.dir, "selftest-%s-base.out" % name)
         r0 = C.tlc("TraceLdapSeq", "TraceLdapSeq.cfg", out0, workers=1, env={"TRACE": p0}, timeout=120)
-        if not r0["ok"] or bad_lines(out0):
-            continue            # this episode is itself rejected (a finding); take another one
+        if not r0["ok"] or any(parts and parts[0] == owner for _, parts in bad_lines(out0)):
+            continue            # this episode is itself rejected for this property (a finding); take another one
         p = os.path.join(chk.dir, "selftest-%s.ndjson" % name)
         with open(p, "w") as f:
             for x in good[:-1] + [m]:
